@@ -428,7 +428,7 @@ CROSS_OPS = [("crosses", XL_AXIS_CROSSES.AUTOMATIC), ("crosses", XL_AXIS_CROSSES
              ("crosses", XL_AXIS_CROSSES.CUSTOM), ("crosses_at", 2.5), ("crosses_at", -1.0), ("crosses_at", None)]
 
 
-@cond(timeout=600, encodes=["pptx.chart.axis:ValueAxis.crosses", "pptx.chart.axis:ValueAxis.crosses_at", "pptx.chart.axis:ValueAxis._cross_xAx"],
+@cond(timeout=2400 if THOROUGH else 600, encodes=["pptx.chart.axis:ValueAxis.crosses", "pptx.chart.axis:ValueAxis.crosses_at", "pptx.chart.axis:ValueAxis._cross_xAx"],
       bound="bar chart, value axis; sequences of 2 (quick; a third step fixed to crosses_at = None) / 3 (thorough) assignments out of 7 (crosses = AUTOMATIC / "
             "MAXIMUM / MINIMUM / CUSTOM, crosses_at = 2.5 / -1.0 / None): after every step crosses and crosses_at read as the documented "
             "state machine says (a non-custom member clears the number; CUSTOM keeps an existing number, else 0.0; a number means CUSTOM), "
